@@ -181,7 +181,10 @@ fn fence_acq(execution: &mut Execution) {
     for state in execution.objects.iter_mut::<State>() {
         // Iterate all the stores
         for store in state.stores_mut() {
-            if !store.first_seen.is_seen_by_current(&execution.threads) {
+            // An acquire fence synchronizes only with the stores that were
+            // read by atomic loads of the *fencing* thread itself, not with
+            // stores whose readers merely happen-before the fence.
+            if !store.first_seen.is_read_by_current(&execution.threads) {
                 continue;
             }
 
@@ -886,6 +889,11 @@ impl FirstSeen {
         }
 
         false
+    }
+
+    /// True if the active thread itself has loaded the store.
+    fn is_read_by_current(&self, threads: &thread::Set) -> bool {
+        self.0[threads.active_id().as_usize()] != u16::MAX
     }
 
     fn is_seen_before_yield(&self, threads: &thread::Set) -> bool {
